@@ -123,7 +123,16 @@ setp('C19',
  "Trusted: Kani's allocator model and CBMC's leak check. Whole-endpoint teardown accounting (client/server drop) is not decided: it is an allocator-level dynamic question; ownership is by Rc/Weak with no cycles (audit).",
  nd=["byte-accurate teardown accounting of a whole client/server", "life cycles with more than 2 fragments"], technique='bounded model checking with Kani/CBMC (allocator contract + leak check) on the real code, plus syntactic audit', units=['kani:heap', 'audit:heap'])
 P['C19']['level'] = 'bounded'; P['C19']['engine'] = 'kani'
-P['C13']['units'] = ['verus', 'kani:refill', 'kani:floats@C13']
-P['C03']['units'] = ['verus', 'kani:floats@C03']
+P['C13']['units'] = ['verus', 'kani:refill', 'kani:floats@C13', 'native:C13']
+P['C03']['units'] = ['verus', 'kani:floats@C03', 'native:C03']
+P['C14']['units'] = ['kani:floats', 'native:C14']
+P['C15']['units'] = ['verus', 'native:C15']
+P['C01']['units'] = ['verus', 'native:C01']
+P['C06']['units'] = ['verus', 'native:C06']
+# native:<P> = regression replays of the repaired defects (and a few scenario tests) appended to the real files in a scratch
+# copy: bounded, never counted as proof, but a fixed defect that returns is reported with its concrete input even where no
+# deductive engine reaches the function (D2, D5).
+for _p in ('C13', 'C03', 'C14', 'C15', 'C01', 'C06'):
+    P[_p]['thorough_units'] = [u for u in P[_p].get('thorough_units', []) if not u.startswith('native:')]
 json.dump(c, open(os.path.join(VERIF, 'props.json'), 'w'), indent=1)
 print('ok')
